@@ -22,7 +22,7 @@ RULE = ('Part A: arrangements (previous close, O, H, L, C, <=3 resting entry ord
         'previous close, O, H, L, C and the order prices); non-trivial = at least one resting order filled (A) / price != open (B).')
 ASSUMPTIONS = ['reference path: O-L-H-C for close >= open, O-H-L-C otherwise, on the open-normalised candle',
                'lattice prices 101..105 (1 % apart) so that no order falls into the 0.015 % market band by accident']
-MIN_OBS = {'cases_with_tied_entry_rows': 500, 'partA_sessions': 3000, 'resting_fills': 3000, 'reaction_order_fills_same_minute': 200,
+MIN_OBS = {'cases_with_market_close_from_the_fill_callback': 100, 'cases_with_tied_entry_rows': 500, 'partA_sessions': 3000, 'resting_fills': 3000, 'reaction_order_fills_same_minute': 200,
            'minute_end_evals_with_resting': 2000, 'split_cases': 5000, 'split_random_cases': 2000}
 EXHAUSTIVE_NOTE = ('thorough tier: Part A enumerates all 105 valid candles x 5 previous closes x 26 order sets x 6 reactions x 2 '
                    'sides on the 5-level lattice; Part B enumerates all valid candles x prices on the 7-level lattice in both tiers')
@@ -94,6 +94,10 @@ def _lattice_strategy(side, rows, reaction, close_reaction=None):
             self.sell = [(1.0, p) for p in rows]
 
         def on_open_position(self, order):
+            if reaction == 'liquidate':
+                # close at the market from inside the callback of the opening fill (the other entry rows still rest)
+                self.liquidate()
+                return
             if reaction is None:
                 return
             e = self.position.entry_price
@@ -136,6 +140,10 @@ def _run_A(job):
         if reaction is not None and ci % 3 == 0:
             close_reaction = LEVELS[(ci // 3 + int(o) + int(h)) % len(LEVELS)]
             cnt['cases_with_close_reaction'] = cnt.get('cases_with_close_reaction', 0) + 1
+        if ci % 9 == 5 and len(rows) >= 2:
+            reaction = 'liquidate'
+            close_reaction = None
+            cnt['cases_with_market_close_from_the_fill_callback'] = cnt.get('cases_with_market_close_from_the_fill_callback', 0) + 1
         if ci % 4 == 1:
             # two entry rows at the SAME price: the second one fills exactly at the open of what is left of the minute after
             # the first fill (a split at the open), before the reaction order placed by the first fill's callback
@@ -163,7 +171,7 @@ def _run_A(job):
                                  'reaction': reaction})
         viol.extend(v[:3])
         if k.get('resting_fills'):
-            sigs.append(repr((side, _ordinal([pc, o, h, l, c] + list(rows) + ([reaction] if reaction else [])),
+            sigs.append(repr((side, _ordinal([pc, o, h, l, c] + list(rows) + ([reaction] if isinstance(reaction, float) else [])),
                               reaction is not None)))
         if sample is None and job.get('want_sample') and k.get('resting_fills', 0) >= 2:
             sample = {'kind': 'A', 'side': side, 'prev_close': pc, 'candle_ochl': [o, c, h, l], 'entry_rows': rows,
